@@ -89,6 +89,7 @@ def run(chk: Check):
     chk.trusted_base = ["Lean 4.33 kernel", "python dict preserves insertion order (id table)", "pickle round trip of the scheduler", "stubs of harness/vp/calharness.py"]
     chk.assumptions = ["a restore returns the table stored with the checkpoint (which may be older than the live one): 'never reassigned' is about one life line of the calibrator"]
     chk.proof_stage(PROP_FILE)
+    folder_reuse(chk, rng)
     n = 120 if chk.tier == "quick" else 2000
     for i in range(n):
         scn = ch.gen_scn(rng, sched="rr", restore=rng.random() < 0.5, set_ops=True, max_batches=rng.randint(2, 9))
@@ -119,12 +120,62 @@ def run(chk: Check):
                 shutil.rmtree(info["folder"], ignore_errors=True)
 
 
+def folder_reuse(chk: Check, rng):
+    """one process, one folder: run A checkpoints into it and is looked up by the plotting helper, then a different run B (other
+    classes / other order, ids within A's range) checkpoints into the same folder and is looked up again"""
+    for i in range(6 if chk.tier == "quick" else 60):
+        a = ch.gen_scn(rng, sched="rr", max_batches=3)
+        n_cls = len(ch.STUB_NAMES)
+        ka = rng.randint(2, 3)
+        first = rng.sample(range(n_cls), ka)
+        a.lineup = [(first[j % ka], bs, script, cs) for j, (_, bs, script, cs) in enumerate(a.lineup[:ka] if len(a.lineup) >= ka else (a.lineup * ka)[:ka])]
+        a.ops = [("C", rng.randint(1, 3)), ("K",)]; a.folder = True; a.keep_folder = True
+        with warnings.catch_warnings():
+            warnings.simplefilter("ignore")
+            la, ia = ch.run_real(a)
+        folder = ia["folder"]
+        try:
+            ids, truth, got = plot_lookup(a, ia)
+            if got != truth:
+                chk.fail(f"plotting cannot map ids {ids} (really {truth}) back to names from the calibrator's checkpoint: {got}", {"case": scn_json(a)})
+            # run B: other classes in the same positions (so the ids 0..k-1 are all known to whoever remembered A's table), fewer or equally many
+            b = ch.gen_scn(rng, sched="rr", max_batches=3)
+            kb = rng.randint(1, ka)
+            second = rng.sample([c for c in range(n_cls) if c not in first[:1]], kb)
+            b.dims, b.bounds, b.precision, b.simlen = a.dims, a.bounds, a.precision, a.simlen
+            b.lineup = [(second[j], bs, script, cs) for j, (_, bs, script, cs) in enumerate(ch.gen_stub_lineup(rng, kb, a.dims, a.bounds))]
+            b.loss_table = {}
+            b.ops = [("C", rng.randint(1, 3)), ("K",)]; b.folder = True; b.keep_folder = True; b.use_folder = folder
+            with warnings.catch_warnings():
+                warnings.simplefilter("ignore")
+                lb, ib = ch.run_real(b)
+            ids, truth, got = plot_lookup(b, ib)
+            chk.case(["folder-reuse", scn_json(a), scn_json(b)], True, {"run_A": [ch.STUB_NAMES[c] for c, *_ in a.lineup], "run_B_same_folder": [ch.STUB_NAMES[c] for c, *_ in b.lineup],
+                                                                         "ids": ids, "names_recovered": got})
+            chk.count("folder_reuse_two_runs")
+            if got != truth:
+                chk.fail(f"second run in a used folder: plotting maps ids {ids} to {got}, they were produced by {truth}", {"case": scn_json(b), "first_run": scn_json(a)})
+        finally:
+            shutil.rmtree(folder, ignore_errors=True)
+
+
 def replay(path: Path) -> int:
     r = json.loads(path.read_text())
     bad = 0
     for fi in r.get("failing_inputs", []):
         c = fi.get("case")
         if not c:
+            continue
+        if fi.get("first_run"):
+            a = scn_from_json(fi["first_run"]); a.keep_folder = True; a.use_folder = None
+            _, ia = ch.run_real(a)
+            plot_lookup(a, ia)
+            b = scn_from_json(c); b.keep_folder = True; b.use_folder = ia["folder"]
+            _, ib = ch.run_real(b)
+            ids, truth, got = plot_lookup(b, ib)
+            shutil.rmtree(ia["folder"], ignore_errors=True)
+            print("REPLAY", fi["what"][:120], "->", "still fails" if got != truth else "passes now")
+            bad += got != truth
             continue
         scn = scn_from_json(c); scn.keep_folder = True
         lines, info = ch.run_real(scn)
